@@ -166,4 +166,16 @@ def cmdTapSighash (spec : Bool) (a : List String) : String :=
     | _, _ => "bad-op"
   | _ => "bad-op"
 
+/-- `TAPBRANCH <left> <right>`: the hash of a branch over two nodes given by their hashes -/
+def cmdTapBranch (spec : Bool) (a : List String) : String :=
+  match a with
+  | l :: r :: _ =>
+    match ofHex l, ofHex r with
+    | some hl, some hr =>
+      if hl.length != 32 || hr.length != 32 then "bad-op"
+      else if spec then toHex (Spec.tapBranchHash Glue.tapOracle hl hr)
+      else toHex (Model.Tap.branchHash Model.Tap.glueCtx hl hr)
+    | _, _ => "bad-op"
+  | _ => "bad-op"
+
 end Driver
